@@ -24,6 +24,17 @@ pub fn dump_state(db: &dyn Database) -> Vec<String> {
             .as_usize(),
         runtime.cancellation_count()
     ));
+    // H7: marker (the dump carries conv= per memo, `sync` lines per claim and the transferred map)
+    out.push("h7 1".to_string());
+    for (query, owner) in runtime.verif_transferred() {
+        out.push(format!(
+            "sync {}:{}->{}:{}:tr",
+            query.ingredient_index().as_u32(),
+            query.key_index().index(),
+            owner.ingredient_index().as_u32(),
+            owner.key_index().index()
+        ));
+    }
     for ingredient in zalsa.ingredients() {
         ingredient.verif_dump(zalsa, &mut out);
     }
